@@ -430,3 +430,8 @@ macro_rules! mahalanobis_mismatch {
 mahalanobis_mismatch!(c17_mahalanobis_mismatch_x, 3, 2);
 // @vp name=c17_mahalanobis_mismatch_y prop=C17 tier=quick t=600 fns=Mahalanobis::distance size=cov2x2,x=2,y=1 dom=concrete expect=panic
 mahalanobis_mismatch!(c17_mahalanobis_mismatch_y, 2, 1);
+// y longer than the covariance dimension while x fits (and vice versa): must be rejected, not silently truncated
+// @vp name=c17_mahalanobis_mismatch_y_longer prop=C17 tier=quick t=600 fns=Mahalanobis::distance size=cov2x2,x=2,y=3 dom=concrete expect=panic
+mahalanobis_mismatch!(c17_mahalanobis_mismatch_y_longer, 2, 3);
+// @vp name=c17_mahalanobis_mismatch_x_shorter prop=C17 tier=quick t=600 fns=Mahalanobis::distance size=cov2x2,x=1,y=2 dom=concrete expect=panic
+mahalanobis_mismatch!(c17_mahalanobis_mismatch_x_shorter, 1, 2);
